@@ -490,26 +490,37 @@ def _mod(t):
     return None
 
 
+SCALAR_HELPERS = ("helpers::scalar_to_be_bytes", "helpers::scalar_to_le_bytes", "helpers::scalar_from_be_bytes", "helpers::scalar_from_le_bytes")
+
+
 def check_endianness(ctx, P, rule="E9.endian"):
-    for fk, want_rev in (("helpers::scalar_to_be_bytes", True), ("helpers::scalar_to_le_bytes", False), ("helpers::scalar_from_be_bytes", True), ("helpers::scalar_from_le_bytes", False)):
+    """Net byte-order of the four scalar helpers relative to the field's little-endian repr: the number of whole-buffer
+    `reverse` steps between the parameter and to_repr / from_repr (following delegation between the helpers) is odd for
+    the big-endian helpers and even for the little-endian ones."""
+    from ..core.sym import inline
+
+    for fk, want_rev in zip(SCALAR_HELPERS, (True, False, True, False)):
         f = ctx.need_fn(rule, fk, P)
         if f is None:
             continue
         ev = evaluate(f)
-        revs = [s for s in ev.sites.values() if s.callee[0] == "slice::<impl [T]>::reverse"]
+        ret = strip_sites(inline(P, ev.ret, 2, only=lambda g: g.key in SCALAR_HELPERS and g.key != fk))
+        def nrev(t):
+            return sum(1 for x in subterms(t) if x.op == "mutcall" and B.cname(x) in ("slice::<impl [T]>::reverse",)) + sum(1 for x in subterms(t) if x.op == "call" and B.cname(x) in ("Iterator::rev",))
         if "to_" in fk:
-            src = any(s.callee[0] == "PrimeField::to_repr" for s in ev.sites.values())
-            ok = src and (len(revs) == 1) == want_rev
+            src = [x for x in subterms(ret) if x.op == "call" and B.cname(x) == "PrimeField::to_repr"]
+            n = nrev(ret)
+            ok = len(src) >= 1 and (n % 2 == 1) == want_rev
         else:
-            # from: copy_from_slice(input) then (reverse) then from_repr on the same buffer
-            fr = [s for s in ev.sites.values() if s.callee[0] == "PrimeField::from_repr"]
-            ok = bool(fr) and (len(revs) == 1) == want_rev
-            if ok:
-                arg = strip_sites(fr[0].args[0])
-                has_copy = any(t.op == "mutcall" and B.cname(t) == "slice::<impl [T]>::copy_from_slice" and any(x.op == "param" and x.a[1] == "input" for x in subterms(t)) for t in subterms(arg))
-                has_rev = any(t.op == "mutcall" and B.cname(t) == "slice::<impl [T]>::reverse" for t in subterms(arg))
-                ok = has_copy and has_rev == want_rev
-        ctx.ob(rule, fk, ok, "%s %s the field's little-endian repr (reverse calls: %d)" % (fk, "reverses" if want_rev else "does not reverse", len(revs)), where=where(f))
+            fr = [x for x in subterms(ret) if x.op == "call" and B.cname(x) == "PrimeField::from_repr"]
+            n = -1
+            ok = bool(fr)
+            for c in fr:
+                arg = c.a[1][0]
+                n = nrev(arg)
+                has_in = any(x.op == "param" and x.a[1] == "input" for x in subterms(arg))
+                ok = ok and has_in and (n % 2 == 1) == want_rev
+        ctx.ob(rule, fk, ok, "%s %s the field's little-endian repr (whole-buffer reversals on the path: %d)" % (fk, "reverses" if want_rev else "does not reverse", n), where=where(f))
 
 
 def check_layouts(ctx, P, rule="E9.layout"):
